@@ -114,6 +114,7 @@ type explorer struct {
 	usesStubs  bool
 	violDeadline time.Time
 	violGrace    time.Duration
+	retried      int
 	crossChecked int
 	crossUnknown int
 	qcache     sync.Map // qkey -> "sat"/"unsat"
@@ -321,6 +322,11 @@ func (ps *pathState) checkCached(extra *term) string {
 		return v.(string)
 	}
 	r := ps.check(extra)
+	if r == "unknown" {
+		if r2 := ps.retryFresh(extra); r2 != "unknown" {
+			r = r2
+		}
+	}
 	if r == "sat" || r == "unsat" {
 		ps.ex.qcache.Store(k, r)
 	}
@@ -607,6 +613,11 @@ func (ps *pathState) assertion(c *term, label string) {
 			return
 		}
 		if r == "unknown" {
+			if r2 := ps.retryFresh(tNot(c)); r2 == "unsat" {
+				ps.popQuery()
+				ps.assert(c)
+				return
+			}
 			ps.popQuery()
 			panic(pathEnd{"unknown", "assertion " + label + " undecided by the solver"})
 		}
@@ -625,6 +636,61 @@ func (ps *pathState) assertion(c *term, label string) {
 		panic(pathEnd{"violation", label})
 	}
 	ps.assert(c)
+}
+
+// standalone prints pc ∧ q as a self-contained script (declarations, definitions, assertions).
+func (ps *pathState) standalone(q *term) string {
+	var defs strings.Builder
+	n := 0
+	pr := &printer{names: map[*term]string{}, defs: &defs, n: &n}
+	vars := map[string]int{}
+	seen := map[*term]bool{}
+	var walk func(t *term)
+	walk = func(t *term) {
+		if seen[t] {
+			return
+		}
+		seen[t] = true
+		if t.op == "var" {
+			vars[t.name] = t.w
+		}
+		for _, a := range t.args {
+			walk(a)
+		}
+	}
+	all := append(append([]*term{}, ps.pc...), q)
+	for _, c := range all {
+		walk(c)
+	}
+	names := make([]string, 0, len(vars))
+	for v := range vars {
+		names = append(names, v)
+	}
+	sort.Strings(names)
+	var decl, asserts strings.Builder
+	for _, v := range names {
+		fmt.Fprintf(&decl, "(declare-const %s %s)\n", v, sortOf(vars[v]))
+	}
+	for _, c := range all {
+		asserts.WriteString("(assert " + pr.ref(c) + ")\n")
+	}
+	return decl.String() + defs.String() + asserts.String()
+}
+
+// retryFresh re-decides an undecided query in a fresh process of the newer z3
+// with a doubled time limit (an `unknown` under machine load is usually a timeout).
+func (ps *pathState) retryFresh(q *term) string {
+	s, err := newSolver("z3-new", 2*ps.w.solver.tmoMs)
+	if err != nil {
+		return "unknown"
+	}
+	defer s.close()
+	s.send(ps.standalone(q))
+	r := s.checkSat()
+	ps.ex.mu.Lock()
+	ps.ex.retried++
+	ps.ex.mu.Unlock()
+	return r
 }
 
 // crossCheck re-decides pc ∧ q from scratch on the second solver and compares.
